@@ -24,6 +24,7 @@ def gen_schema(rng, force_kind=None):
     nent = rng.choice([1, 2, 2, 3, 3, 4])
     nrel = rng.choice([1, 2, 2, 3, 3, 4])
     rels = []
+    pk_ents = set()
     for i in range(nrel):
         kind = force_kind if (force_kind and i == 0) else rng.choice(['o2o', 'o2o', 'm2o', 'm2o', 'm2o', 'm2m', 'm2m', 'sym1', 'symm'])
         ea = rng.randrange(nent)
@@ -40,6 +41,8 @@ def gen_schema(rng, force_kind=None):
                  'a': {'ent': ea, 'coll': False, 'req': rng.random() < 0.4, 'opt_casc': None},
                  'b': {'ent': eb, 'coll': True, 'req': False, 'opt_casc': rng.choice([None, None, None, True, False])},
                  'ckey': rng.random() < 0.3}      # composite_key(reference, tag) on the entity of the reference
+            if r['a']['req'] and ea not in pk_ents and rng.random() < 0.4:
+                r['pk'] = True; r['ckey'] = False; pk_ents.add(ea)     # PrimaryKey(reference, tag): the reference is part of the primary key
             if rng.random() < 0.5: r['a'], r['b'] = r['b'], r['a']     # collection side may come first in declaration order
         elif kind == 'm2m':
             r = {'kind': kind, 'sym': False,
@@ -79,10 +82,10 @@ class World:
         for e in range(nent):
             dicts[e]['tag'] = Required(int)
         for i, r in enumerate(schema['rels']):                 # what `composite_key(ref, tag)` in the class body does
-            if r.get('ckey'):
+            if r.get('ckey') or r.get('pk'):
                 sn = 'b' if r['a']['coll'] else 'a'
                 d = dicts[r[sn]['ent']]
-                d.setdefault('_indexes_', []).append(core.Index(d['r%d%s' % (i, sn)], d['tag'], is_pk=False, is_unique=True))
+                d.setdefault('_indexes_', []).append(core.Index(d['r%d%s' % (i, sn)], d['tag'], is_pk=bool(r.get('pk')), is_unique=True))
         self.classes = [type('E%d' % e, (db.Entity,), dicts[e]) for e in range(nent)]
         db.bind('sqlite', ':memory:')
         db.generate_mapping(create_tables=True)
@@ -158,6 +161,7 @@ class World:
                 raise RuntimeError('unknown op ' + k)
             return None
         except Exception as e:
+            if isinstance(e, TypeError) and 'primary key' in str(e): return 'PrimaryKeyChange'     # a failure cause outside the model
             return type(e).__name__
 
     def alive(self, o):
@@ -199,6 +203,23 @@ def ends_disagree(w, snap):
                 if p not in held(snap[q], w.rev(key)):
                     bad.append((p, key, q, 'mirror missing'))
     return bad
+
+
+def untracked_one_sided(w):
+    """objects the session holds (cache.objects) that no successful call returned - e.g. left behind by a failed constructor -
+    with a relationship value whose other end does not know them"""
+    cache = w.db._get_cache()
+    if cache is None: return []
+    out = []
+    for z in list(cache.objects):
+        if w.idx(z) >= 0 or z._status_ in DEL or z._vals_ is None: continue
+        for attr, v in z._vals_.items():
+            if not attr.reverse or v is None: continue
+            for q in (list(v) if attr.is_collection else [v]):
+                rv = q._vals_.get(attr.reverse) if q._vals_ is not None else None
+                ok = (z in rv) if isinstance(rv, set) else (rv is z)
+                if not ok: out.append((repr(z), attr.name, w.idx(q)))
+    return out
 
 
 def dangling(w, snap):
@@ -378,7 +399,7 @@ def memory_phase(ctx, rng, nhist, nops):
             w = World(schema)
         except Exception as e:
             ctx.count('schema-rejected:' + type(e).__name__); continue
-        for rel in schema['rels']: ctx.count('rel:' + rel['kind'] + ('+ckey' if rel.get('ckey') else ''))
+        for rel in schema['rels']: ctx.count('rel:' + rel['kind'] + ('+ckey' if rel.get('ckey') else '') + ('+pk' if rel.get('pk') else ''))
         ops, real = [], []
         violated = False
         pks = None; found = None
@@ -400,6 +421,11 @@ def memory_phase(ctx, rng, nhist, nops):
                              {'p': p, 'attr': list(key), 'q': q, 'why': why, 'outcome': err or 'ok'})
                     ctx.count('oracle:ends-disagree')
                     violated = True; break
+                zs = untracked_one_sided(w)
+                if zs:
+                    ctx.violation('the session holds an object no call returned (left by a failed call) whose relationship value does not know it',
+                                  {'schema': schema, 'ops': ops + [op]}, observed=zs[0], key='untracked-object-one-sided:%s/%s' % (op['k'], err or 'ok'))
+                    violated = True; break
                 if dangling(w, snap):
                     dead_operand = tag in ('dead-value', 'dead-target') or any(t == 'dead-value' for _, _, t in real)
                     ctx.count('live-object-references-deleted-object' + (':a-deleted-object-was-passed-as-value' if dead_operand else ''))
@@ -420,7 +446,7 @@ def memory_phase(ctx, rng, nhist, nops):
             elif not violated and rng.random() < 0.6:
                 try:
                     commit()
-                    pks = [(o.id if w.alive(o) else None) for o in w.objs]
+                    pks = [(o.get_pk() if w.alive(o) else None) for o in w.objs]
                 except Exception as e:
                     ctx.count('reload:commit-failed:' + type(e).__name__)
                     rollback()
@@ -594,7 +620,7 @@ def reload_phase(ctx, rng, w, ops, real, pks):
         try:
             commit()
             last = more[-1][2] if more and more[-1][2] is not None else None
-            pks2 = [(o.id if w.alive(o) else None) for o in w.objs]
+            pks2 = [(o.get_pk() if w.alive(o) else None) for o in w.objs]
             objs2 = w.objs
         except Exception as e:
             ctx.count('reload:second-commit-failed:' + type(e).__name__)
